@@ -34,6 +34,10 @@ def script_items(r, dels):
     for d in dels:
         if d == 'full':
             items.append('full:' + r.hex(32))
+        elif d in ('fullz', 'fullf', 'fulle', 'fulll'):       # 32 bytes that happen to be all 00 / all FF / end in 00.. / begin with 00..
+            items.append('full:' + {'fullz': '00' * 32, 'fullf': 'ff' * 32, 'fulle': r.hex(24) + '00' * 8, 'fulll': '00' * 8 + r.hex(24)}[d])
+        elif d == 'shortz':
+            items.append('short:' + '00' * r.choice([1, 16, 31]))
         elif d == 'short':
             items.append('short:' + r.hex(r.choice([1, 16, 31])))
         else:
@@ -128,6 +132,20 @@ def edge_histories(r):
     H.append(([I(), L((1 << 64) - 1), G(96), L((1 << 64) - 30), G(64), G(40)], ['full', 'full']))      # "as rarely as possible"
     H.append(([I(300), F(1000), G(40), F(64), F(65), G(33)], ['full']))                   # long personalisation and feeds
     H.append(([I(), R, R, G(64), R, G(5), G(0), G(27)], ['short', 'none', 'full', 'short']))
+    # the default limit, never configured: 1 KiB, however the output is split
+    H.append(([I(), G(512), G(600), G(2040)], ["full"] * 6))
+    H.append(([I(5), G(2048), G(1030)], ["full"] * 6))
+    # a configured limit survives reseeds (explicit and automatic)
+    H.append(([I(), L(64), R, G(200), R, G(130)], ['full'] * 12))
+    H.append(([I(), R, L(96), G(300), G(100)], ['full'] * 12))
+    # the value of a delivery does not matter: all 00, all FF, zero tails / heads, at instantiate and at reseed
+    for a, b in (('fullz', 'full'), ('fullf', 'fullz'), ('fulle', 'fulll'), ('full', 'fullz'), ('fullz', 'fullz'), ('shortz', 'fullf')):
+        H.append(([I(), G(40), R, G(40), L(32), G(70)], [a, b, 'fullz', 'full', 'fullf']))
+    # feeds while a reseed is pending, then the limit is raised (or not) before the next generate
+    for lim in (32, 64, 96):
+        for nf in (lim // 32, lim // 32 + 1, lim // 32 + 3):
+            for raise_ in (0, 1):
+                H.append(([I(), L(lim)] + [F(1 + k) for k in range(nf)] + ([L(1024)] if raise_ else []) + [G(70), F(2), G(40)], ['full'] * 8))
     return H
 
 
@@ -265,8 +283,14 @@ def check_C17(chk):
                 ops += [R, G(33)] if k % 2 == 0 else [G(64)]
         ops += [G(32), G(32)]
         groups.append(history_lines(r, f"p{pi}", ops, list(p), obj=pi % 8))
+    # the status depends on how many bytes were delivered, never on their value: deliveries that are all 00 / all FF / end or
+    # begin with a run of 00, full and short, at init and at explicit and automatic reseeds
+    vals = ['fullz', 'fullf', 'fulle', 'fulll', 'shortz']
+    for vi, (a, b, c) in enumerate([(x, y, z) for x in vals for y in ('full', 'fullz', 'shortz') for z in ('fullz', 'none')]):
+        ops = [dict(op='pinit', arg=[0, 7][vi % 2]), G(40), R, G(33), L(32), G(64), G(32)]
+        groups.append(history_lines(r, f"v{vi}", ops, [a, b, c, 'full'], obj=vi % 8))
     # NULL callback = system source = plain init; the OS call is interposed and scripted (full or failing)
-    for si, p in enumerate([q for k in (1, 2, 3) for q in itertools.product(['full', 'none'], repeat=k)]):
+    for si, p in enumerate([q for k in (1, 2, 3) for q in itertools.product(['full', 'none'], repeat=k)] + [('fullz', 'fullf'), ('fullf', 'fullz', 'full')]):
         for src in ('null', 'plain', 'cb'):
             ops = [dict(op='pinit', arg=[0, 12][si % 2], src=src), G(40), R, G(32), L(32), G(64), G(32)]
             groups.append(history_lines(r, f"n{si}-{src}", ops, list(p), obj=si % 8, src=src))
